@@ -3014,6 +3014,7 @@ func (s *Store) observe() (closeCh, doneCh chan struct{}) {
 						break
 					}
 
+					vhook.Trace(s.raftID, "reap.check", "id", id, "dur", dur.Microseconds(), "ro", isReadReplica)
 					if (isReadReplica && s.ReapReadOnlyTimeout > 0 && dur > s.ReapReadOnlyTimeout) ||
 						(!isReadReplica && s.ReapTimeout > 0 && dur > s.ReapTimeout) {
 						pn := "voting node"
@@ -3022,9 +3023,11 @@ func (s *Store) observe() (closeCh, doneCh chan struct{}) {
 						}
 						if err := s.remove(id); err != nil {
 							stats.Add(nodesReapedFailed, 1)
+							vhook.Trace(s.raftID, "reap.remove", "id", id, "ok", false)
 							s.logger.Printf("failed to reap %s %s: %s", pn, id, err.Error())
 						} else {
 							stats.Add(nodesReapedOK, 1)
+							vhook.Trace(s.raftID, "reap.remove", "id", id, "ok", true)
 							s.logger.Printf("successfully reaped %s %s", pn, id)
 						}
 					}
